@@ -141,7 +141,7 @@ int main(int argc, char **argv) {
     if (ok) {
         HistWeights w;
         w.emit = 10; w.discover = 5; w.max_emit = 12; w.probe = 1; w.hello = 1; w.shell = 1; w.odd_tos = false; w.otherif = 1; w.repeat = 1;
-        ok = run_cases(a, ev, "c06-histories", a.n(20000, 200000), 100, hg::hist_case(w, 2, 25), run);
+        ok = run_cases(a, ev, "c06-histories", a.n(80000, 400000), 100, hg::hist_case(w, 2, 25), run);
     }
     // over-declared family
     if (ok) {
